@@ -35,6 +35,7 @@ type c13Resp struct {
 	GenTxt    string   `json:"genTxt"`
 	GenSkip   string   `json:"genSkip"`
 	Shape     string   `json:"shape"`
+	Flags     string   `json:"flags"`
 	Millis    int64    `json:"millis"`
 }
 
@@ -58,7 +59,7 @@ func c13Worker() {
 				}
 				c13Eval(ctx, cs, rq.Gen)
 				b, _ := json.Marshal(c13Resp{ID: rq.ID, ImportErr: cs.importErr, Verdicts: cs.verdicts,
-					GenTxt: cs.genTxt, GenSkip: cs.genSkip, Shape: cs.shape, Millis: cs.evalMillis})
+					GenTxt: cs.genTxt, GenSkip: cs.genSkip, Shape: cs.shape, Flags: cs.flags, Millis: cs.evalMillis})
 				out.Write(b)
 				out.WriteByte('\n')
 				out.Flush()
@@ -156,7 +157,7 @@ func c13RunWorkers(c *Cfg, cases []*c13Case) {
 						p = nil
 						continue
 					}
-					cs.importErr, cs.verdicts, cs.genTxt, cs.genSkip, cs.shape, cs.evalMillis = rp.ImportErr, rp.Verdicts, rp.GenTxt, rp.GenSkip, rp.Shape, rp.Millis
+					cs.importErr, cs.verdicts, cs.genTxt, cs.genSkip, cs.shape, cs.flags, cs.evalMillis = rp.ImportErr, rp.Verdicts, rp.GenTxt, rp.GenSkip, rp.Shape, rp.Flags, rp.Millis
 				case <-time.After(limit):
 					cs.importErr = "timeout"
 					p.kill()
